@@ -85,7 +85,8 @@ impl<Octets> UncertainName<Octets> {
     fn is_slice_absolute(
         mut slice: &[u8],
     ) -> Result<bool, UncertainDnameError> {
-        if slice.len() > Name::MAX_LEN {
+        let len = slice.len();
+        if len > Name::MAX_LEN {
             return Err(UncertainDnameErrorEnum::LongName.into());
         }
         loop {
@@ -98,6 +99,11 @@ impl<Octets> UncertainName<Octets> {
                 }
             }
             if tail.is_empty() {
+                // A relative name has no root label and is thus limited to
+                // one octet less than an absolute name.
+                if len > Name::MAX_LEN - 1 {
+                    return Err(UncertainDnameErrorEnum::LongName.into());
+                }
                 return Ok(false);
             }
             slice = tail;
